@@ -72,21 +72,22 @@ fn strip<'a>(s: &'a str, p: &str) -> Option<&'a str> {
     s.strip_prefix(p)
 }
 
+/// One reading with the text each element matched: (text, prefix, unit).
+pub type SpanReading = Vec<(String, String, i32, &'static UnitDef)>;
+
 /// All segmentations of `word` into (prefix? name)+ over the documented
-/// vocabulary.  A `-` between units is a separator (documented in the
-/// generator: `#[token("-")] Separator`).
-pub fn readings(word: &str) -> Vec<Reading> {
-    fn rec(rest: &str, acc: &mut Reading, out: &mut Vec<Reading>, depth: usize) {
+/// vocabulary, with the matched text of every element.
+pub fn readings_spans(word: &str) -> Vec<SpanReading> {
+    fn rec(rest: &str, acc: &mut SpanReading, out: &mut Vec<SpanReading>) {
         if rest.is_empty() {
             if !acc.is_empty() {
                 out.push(acc.clone());
             }
             return;
         }
-        if depth > 6 || out.len() > 64 {
+        if acc.len() > 12 || out.len() > 20000 {
             return;
         }
-        // candidates: name, prefix-symbol + name, prefix-long + name
         let mut prefixes: Vec<(&str, i32)> = vec![("", 0)];
         for (sym, long, p) in PREFIXES {
             if rest.starts_with(sym) {
@@ -101,8 +102,8 @@ pub fn readings(word: &str) -> Vec<Reading> {
             for u in UNITS {
                 for name in u.names {
                     if let Some(tail) = strip(after, name) {
-                        acc.push((p, u));
-                        rec(tail, acc, out, depth + 1);
+                        acc.push((ptext.to_string(), name.to_string(), p, u));
+                        rec(tail, acc, out);
                         acc.pop();
                     }
                 }
@@ -110,8 +111,12 @@ pub fn readings(word: &str) -> Vec<Reading> {
         }
     }
     let mut out = Vec::new();
-    rec(word, &mut Vec::new(), &mut out, 0);
+    rec(word, &mut Vec::new(), &mut out);
     out
+}
+
+pub fn readings(word: &str) -> Vec<Reading> {
+    readings_spans(word).into_iter().map(|r| r.into_iter().map(|(_, _, p, u)| (p, u)).collect()).collect()
 }
 
 #[derive(Clone, Debug, PartialEq, Eq)]
